@@ -514,6 +514,21 @@ def typeFromNameOrOption (g : Group) (o : Opts) (name : Str) (lit vocab key : St
     | .str t => if (vocabOf g vocab).contains t then return [.s t] else throw (Err.value "unsupported-type")
     | v => if v.hashable then throw (Err.value "unsupported-type") else throw (Err.type "unhashable")
 
+/-- the configuration route of `TimeWindowFeatureGroup._extract_time_window_params`: the raw option values are returned
+(only a str window size is converted with `int()`) -/
+def windowParamsFromOptions (o : Opts) : Except Err (List Param) :=
+  match o.get "window_function".toList, o.get "window_size".toList, o.get "time_unit".toList with
+  | .none, _, _ | _, .none, _ | _, _, .none => .error (.value "no-window-params")
+  | f, n, u =>
+    let raw : PV → Option Param := fun v => match v with | .str s => some (.s s) | .int i => some (.n i) | _ => none
+    match raw f, raw u with
+    | some f', some u' =>
+      match n with
+      | .int i => .ok [f', .n i, u']
+      | .str s => if isAllDigits s then .ok [f', .n (Nat.ofDigitChars 10 s 0), u'] else .error (.unmodelled "int(str)")
+      | _ => .error (.unmodelled "window-size-type")
+    | _, _ => .error (.unmodelled "raw-option-type")
+
 /-- what the group's `calculate_feature` will use as operation parameters for a feature `(name, options)` -/
 def extractParams (g : Group) (o : Opts) (name : Str) : Except Err (List Param) :=
   if g.name == "AggregatedFeatureGroup".toList then do
@@ -539,19 +554,7 @@ def extractParams (g : Group) (o : Opts) (name : Str) : Except Err (List Param) 
     -- `_extract_time_window_params`
     match parseTimeWindowPrefix g name with
     | .ok (f, n, u) => .ok [.s f, .n n, .s u]
-    | .error _ =>
-      match o.get "window_function".toList, o.get "window_size".toList, o.get "time_unit".toList with
-      | .none, _, _ | _, .none, _ | _, _, .none => .error (.value "no-window-params")
-      | f, n, u =>
-        -- the raw option values are returned (only a str window size is converted with int())
-        let raw : PV → Option Param := fun v => match v with | .str s => some (.s s) | .int i => some (.n i) | _ => none
-        match raw f, raw u with
-        | some f', some u' =>
-          match n with
-          | .int i => .ok [f', .n i, u']
-          | .str s => if isAllDigits s then .ok [f', .n (Nat.ofDigitChars 10 s 0), u'] else .error (.unmodelled "int(str)")
-          | _ => .error (.unmodelled "window-size-type")
-        | _, _ => .error (.unmodelled "raw-option-type")
+    | .error _ => windowParamsFromOptions o
   else if g.name == "GeoDistanceFeatureGroup".toList then
     -- `_extract_distance_unit` / `get_distance_type`
     typeFromNameOrOption g o name "_distance" "DISTANCE_TYPES" "distance_type"
